@@ -452,7 +452,18 @@ impl Gen {
     let classes = spec.classes.clone();
     for c in &classes {
       self.comment(rng, &mut out, "", true);
-      let tp = c.tparam.as_ref().map(|t| format!("<{t}>")).unwrap_or_default();
+      let tp = c
+        .tparam
+        .as_ref()
+        .map(|t| {
+          if rng.chance(1, 4) {
+            // a bound that names an interface nobody declares (unique, long)
+            format!("<{t}: OnlyInATypeParameterBound{}>", rng.below(100_000))
+          } else {
+            format!("<{t}>")
+          }
+        })
+        .unwrap_or_default();
       let private = if c.is_private { "private " } else { "" };
       let header = match &c.kind {
         ClassKind::Interface => format!("{private}interface {}{tp}", c.name),
@@ -502,6 +513,11 @@ impl Gen {
           out.push_str(&format!("{sig} = {body}\n"));
         }
         out.push('\n');
+      }
+      if !matches!(c.kind, ClassKind::Interface) && rng.chance(1, 8) {
+        // a member with its own, uniquely named type parameter
+        let n = rng.below(100_000);
+        out.push_str(&format!("  function <MemberLevelTypeParameter{n}> identityNumber{n}(x: MemberLevelTypeParameter{n}): MemberLevelTypeParameter{n} = x\n\n"));
       }
       if let (Some(t), ClassKind::Struct(_)) = (&c.tparam, &c.kind) {
         out.push_str(&format!("  method unwrapTheValue(): {t} = this.value\n"));
@@ -561,7 +577,22 @@ impl Gen {
         }
         4 => {
           let e = self.gen_expr(rng, &Ty::Str, 1, scope, visible);
-          match rng.below(4) {
+          match rng.below(6) {
+            4 => {
+              // an unresolved, unique, long name that occurs only in an explicit type argument
+              let n = rng.below(100_000);
+              if rng.chance(1, 2) {
+                s.push_str(&format!("    let _ = Process.panic<OnlyInAnExplicitTypeArgument{n}>({e});\n"));
+              } else {
+                s.push_str(&format!("    let _ = if false {{ Process.panic<int>({e}) }} else {{ Str.fromInt(1).toInt() }};\n"));
+              }
+            }
+            5 => {
+              // ... and one that occurs only in the annotation of a lambda parameter
+              let n = rng.below(100_000);
+              let p = self.fresh_lower(rng, &taken);
+              s.push_str(&format!("    let _ = ({p}: OnlyInALambdaParameterAnnotation{n}) -> 1;\n"));
+            }
             0 => {
               // tuple expression and tuple pattern (std.tuples may or may not be present)
               let a = self.fresh_lower(rng, &taken);
